@@ -655,6 +655,24 @@ func c06(r *mon.Run) {
 		Do: func(i int, t *mon.Tally) {
 			c06CaseExpr(r, t, rl, "calls-on-parts-of-the-document-handed-back-by-other-calls", i, pexprs[i], func() interface{} { return withSpare(provDoc()) }, i%2 == 1)
 		}}
-	r.Exec(fm, sd, rnd, wr, xd, emb, nlw, pw)
+	// lists of numbers whose running total leaves the float64 range (the arithmetic functions have a second path for them) and of
+	// numbers at the other edges of the formats: whatever that path does, it does on its own copy
+	hugeDoc := func() interface{} {
+		return docs.J(`{"h":[1e308,1e308,-1e308,5],"h2":[1e308,1e308,1e308],"h3":[1.7976931348623157e308,3,1.7976931348623157e308,-1.7976931348623157e308],"h4":[-1e308,2,-1e308,1e308,-3],"neg":[-1e308,-1e308],"tiny":[5e-324,1e-320,-5e-324],"mix":[9007199254740993,1e21,-0.0,0.1,1e-7],"ho":[{"n":1e308,"s":"a"},{"n":1e308,"s":"b"},{"n":-1e308,"s":"c"}],"o":{"a":1e308,"b":1e308}}`)
+	}
+	hfields := []string{"h", "h2", "h3", "h4", "neg", "tiny", "mix", "ho[*].n", "values(o)", "to_array(h)", "not_null(h2)", "h[:3]", "[h[0], h[1], h[3]]"}
+	hforms := []string{"sum(%s)", "avg(%s)", "max(%s)", "min(%s)", "sort(%s)", "reverse(%s)", "[avg(%s), sum(h4)]", "[sum(%s), h]", "avg(%s) | type(@)", "sum(%s) || `0`", "map(&abs(@), %s)", "sort_by(ho, &n)", "max_by(ho, &n)", "%s[?@ > `0`] | sum(@)", "avg(%s) == avg(%s)", "length(%s)", "to_string(%s)", "ceil(avg(%s))", "abs(sum(%s))", "sum(sort(%s))", "avg(reverse(%s))"}
+	var hexprs []string
+	for _, hf := range hfields {
+		for _, hm := range hforms {
+			hexprs = append(hexprs, strings.ReplaceAll(hm, "%s", hf))
+		}
+	}
+	hw := mon.Workload{Name: "numbers-at-the-edges-of-the-formats", N: len(hexprs) * 2, Serial: true, Batch: 200,
+		Describe: func(i int) string { return hexprs[i/2] },
+		Do: func(i int, t *mon.Tally) {
+			c06CaseExpr(r, t, rl, "numbers-at-the-edges-of-the-formats", i, hexprs[i/2], func() interface{} { return withSpare(hugeDoc()) }, i%2 == 1)
+		}}
+	r.Exec(fm, sd, rnd, wr, xd, emb, nlw, pw, hw)
 	r.Extra["race_log_active"] = rl != nil
 }
